@@ -61,9 +61,13 @@ def TlvRec.WF (r : TlvRec) : Prop :=
   | .u64, .num n => WFu64 n
   | .bytes, .bytes b => b.length < 2 ^ 48
   | _, _ => False
-instance decTlvRecWF : Decidable (TlvRec.WF r) := by
-  unfold TlvRec.WF
-  cases r.kind <;> cases r.val <;> infer_instance
+instance decTlvRecWF : (r : TlvRec) → Decidable r.WF
+  | ⟨t, .u8, .num n⟩ => inferInstanceAs (Decidable (WFu64 t ∧ WFu8 n))
+  | ⟨t, .u64, .num n⟩ => inferInstanceAs (Decidable (WFu64 t ∧ WFu64 n))
+  | ⟨t, .bytes, .bytes b⟩ => inferInstanceAs (Decidable (WFu64 t ∧ b.length < 2 ^ 48))
+  | ⟨t, .u8, .bytes _⟩ => inferInstanceAs (Decidable (WFu64 t ∧ False))
+  | ⟨t, .u64, .bytes _⟩ => inferInstanceAs (Decidable (WFu64 t ∧ False))
+  | ⟨t, .bytes, .num _⟩ => inferInstanceAs (Decidable (WFu64 t ∧ False))
 
 /-- `Stream.Encode`: type, length (`rec.Size()`), payload per record -/
 def encRecord (r : TlvRec) : Bytes := encBigSize r.typ ++ encBigSize r.payload.length ++ r.payload
